@@ -38,6 +38,16 @@ func (w *World) verifyFunction(fn *ssa.Function, c *Contract) *Exec {
 			if wt := s.wellTyped(t, p.Type()); wt.S != "true" {
 				s.assume(wt)
 			}
+			if t.Sort == sortAny {
+				// references boxed in an interface argument existed at entry
+				for _, cn := range w.anyOrder {
+					c := w.anyCons[cn]
+					switch c.typ.Underlying().(type) {
+					case *types.Pointer, *types.Map:
+						s.assume(mkImp(w.isCon(c, t), mkAnd(le(intLit(0), w.unbox(c, t)), le(w.unbox(c, t), s.alloc))))
+					}
+				}
+			}
 			args = append(args, t)
 		}
 		var free []Val
@@ -133,8 +143,19 @@ func (x *Exec) entryEnv(s *State) *Env {
 			continue
 		}
 		if lr.isAddr {
+			// address-taken local: its current value (old() must not re-read it)
 			if pv, ok := val.(*PtrVal); ok {
-				env.vars[name] = SVal{loc: pv, gt: lr.v.Type().Underlying().(*types.Pointer).Elem()}
+				et := lr.v.Type().Underlying().(*types.Pointer).Elem()
+				func() {
+					defer func() {
+						if r := recover(); r != nil {
+							if _, ok := r.(unsupported); !ok {
+								panic(r)
+							}
+						}
+					}()
+					env.vars[name] = SVal{t: s.load(pv), gt: et}
+				}()
 			}
 			continue
 		}
@@ -401,11 +422,23 @@ func (x *Exec) loopEnv(s *State, li *loopInfo) *Env {
 			env.vars[phi.Comment] = SVal{t: t, gt: phi.Type()}
 		}
 	}
-	// map iteration: $seen
-	for _, in := range li.header.Instrs {
-		if nx, ok := in.(*ssa.Next); ok {
-			if it, ok := fr.regs[nx.Iter].(*IterVal); ok {
-				env.vars["$seen"] = SVal{t: it.seen}
+	// map iteration: $seen (of this loop, else of the nearest enclosing map loop)
+	{
+		la := x.loopsOf(li.fn)
+		var chain []*loopInfo
+		for _, o := range la.list {
+			if o == li || o.body[li.header] {
+				chain = append(chain, o)
+			}
+		}
+		sort.Slice(chain, func(a, b int) bool { return len(chain[a].body) > len(chain[b].body) })
+		for _, o := range chain {
+			for _, in := range o.header.Instrs {
+				if nx, ok := in.(*ssa.Next); ok {
+					if it, ok := fr.regs[nx.Iter].(*IterVal); ok {
+						env.vars["$seen"] = SVal{t: it.seen}
+					}
+				}
 			}
 		}
 	}
